@@ -22,6 +22,7 @@ type Layout struct {
 	Semis      bool       // ；between simple statements of one block
 	ExtraSpace bool
 	BlankLines bool
+	Quotes     bool // text literals in expressions are written with any of the three documented quote pairs (“ ” / 「 」 / 《 》)
 	RawBreaks  bool // a line break inside a text value is written as a real line break of the file (multi-line literal) when it equals the file's EOL
 }
 
@@ -43,6 +44,7 @@ func RandomLayout(r *rand.Rand) Layout {
 	l.ExtraSpace = r.Intn(3) == 0
 	l.BlankLines = r.Intn(2) == 0
 	l.RawBreaks = r.Intn(2) == 0
+	l.Quotes = r.Intn(2) == 0
 	return l
 }
 
@@ -526,9 +528,9 @@ func (r *renderer) expr(e Expr, minPrec int) string {
 				}
 				out += q
 			}
-			return "“" + out + "”"
+			return r.requote("“" + out + "”")
 		}
-		return QuoteText(v.S)
+		return r.requote(QuoteText(v.S))
 	case Name:
 		return v.N
 	case Group:
@@ -648,6 +650,22 @@ func (r *renderer) bracketList(parts []string) string {
 		sep += " "
 	}
 	return open + strings.Join(parts, sep) + close
+}
+
+// requote swaps the outer “ ” of a rendered literal for another documented pair (the content
+// has every quote character escaped, so any pair encloses it)
+func (r *renderer) requote(q string) string {
+	if !r.l.Quotes || r.l.Rng == nil {
+		return q
+	}
+	inner := strings.TrimSuffix(strings.TrimPrefix(q, "“"), "”")
+	switch r.l.Rng.Intn(3) {
+	case 0:
+		return "「" + inner + "」"
+	case 1:
+		return "《" + inner + "》"
+	}
+	return q
 }
 
 var quoteChars = "“”「」‘’『』《》"
